@@ -12,7 +12,7 @@ LEAVES = ['bool', 'int', 'float', 'str', 'bytes', 'bytearray', 'uuid', 'decimal'
 TOKS = ['uuid', 'decimal', 'path', 'date', 'datetime', 'time', 'timedelta']
 HASHABLE_LEAVES = [l for l in LEAVES if l not in ('bytearray', 'any')]
 CONTEXTS = ['list', 'set', 'frozenset', 'deque', 'tuple2', 'vartuple', 'dictval', 'dictkey', 'defaultdict', 'ordered',
-            'opt', 'union', 'nt', 'td', 'data']
+            'opt', 'union', 'nt', 'td', 'data', 'tagunion']
 RESERVED = {'o', 'cls', 'field', 'fields', 'i', 'e', 'v1', 'tp', 'result', 'config', 'hooks', 'exclude', 'self',
             'dict_factory', 'asdict', 'paths', 'k', 'v', 'skip_defaults', 'json_key', 'py_field', 'init_kwargs',
             'catch_all', 'field_to_parser', 'json_to_field', 'py_case', 'count', 'index', 'copy', 'field'}
@@ -158,6 +158,18 @@ class Gen:
             i = self.fresh()
             a, b = self.names(2)
             return {'t': 'td', 'id': i, 'name': 'D%d' % i, 'req': [[a, inner]], 'opt': [[b, {'t': 'int'}]]}
+        if ctx == 'tagunion':
+            # Union of two tagged dataclasses (dispatch on the tag) and a scalar
+            i, j2 = self.fresh(), self.fresh()
+            a, b, c2 = self.names(3)
+            k1 = {'t': 'data', 'id': i, 'name': 'K%d' % i, 'tag': 'tag-%d' % i,
+                  'fields': [{'name': a, 'ty': inner, 'alias': None, 'default': None},
+                             {'name': b, 'ty': {'t': 'int'}, 'alias': None, 'default': {'v': 'int', 'x': '3'}}]}
+            k2 = {'t': 'data', 'id': j2, 'name': 'K%d' % j2, 'tag': 'tag-%d' % j2,
+                  'fields': [{'name': c2, 'ty': {'t': 'str'}, 'alias': None, 'default': None}]}
+            es = [k1, k2, {'t': 'int'}]
+            self.r.shuffle(es)
+            return {'t': 'union', 'es': es}
         if ctx == 'data':
             i = self.fresh()
             a, b = self.names(2)
@@ -278,7 +290,8 @@ class Gen:
         if t == 'opt':
             return {'v': 'none'} if r.random() < 0.3 else self.value(ty['e'], depth)
         if t == 'union':
-            e = r.choice(ty['es'])
+            datas = [e for e in ty['es'] if e['t'] == 'data']
+            e = datas[0] if datas and r.random() < 0.6 else r.choice(ty['es'])
             return self.value(e, depth)
         if t == 'nt': return {'v': 'nt', 'id': ty['id'], 'xs': [self.value(f[1], depth + 1) for f in ty['fields']]}
         if t == 'td':
